@@ -3,5 +3,9 @@
 #![allow(missing_docs, unused_imports, unused, dead_code, unreachable_pub)]
 #![allow(clippy::all, clippy::pedantic)]
 
-// child-module probe: `super` is the repository module this file is included in
-use super::*;
+// Child-module probe of the repository module `source`. Sub-files (one owner each) see that
+// module as `super::super` and may touch its private items.
+#[path = "source_a3.rs"]
+pub mod a3;
+#[path = "source_a4.rs"]
+pub mod a4;
